@@ -45,6 +45,27 @@ class Shards(object):
         return hash(tuple(self.parts))
 
 
+FLAKY = {"fail": False}
+
+
+class Flaky(object):
+    """a value that cannot be read back while FLAKY['fail'] is set (a class that is not importable yet, a library that is
+    missing in this process): the stored blob is intact"""
+    def __init__(self, x):
+        self.x = x
+
+    def __eq__(self, o):
+        return isinstance(o, Flaky) and o.x == self.x
+
+    def __hash__(self):
+        return hash(self.x)
+
+    def __setstate__(self, st):
+        if FLAKY["fail"]:
+            raise ImportError("cannot rebuild a Flaky here")
+        self.__dict__.update(st)
+
+
 class TaggedStr(str):
     """a subclass of str that carries an attribute: not a text result, must come back as itself"""
     def __new__(cls, s, tag=None):
@@ -311,6 +332,30 @@ def run(ctx):
                     res.violations.append({"what": "%s: result of kind %s written with %s is read back as %s" % (stage, name, proto, repr(got)[:80]),
                                            "input": {"value": name, "protocol": proto, "stage": stage}, "kf": None})
         read_all("same process")
+        # a fetch that fails (the value cannot be rebuilt in this process at this moment) leaves the blob where it is: it is still
+        # reported present, and it is read back once the obstacle is gone - also through a second handle and through the cache
+        from dds._lru_store import LRUCacheStore as _LRU0
+        for hname, handle in (("the store", st), ("a second store object", LocalFileStore(internal, data)),
+                              ("the cache wrapper", _LRU0(LocalFileStore(internal, data), num_elem=3))):
+            kf = "key_flaky_" + hname.split()[-1]
+            handle.store_blob(kf, Flaky(("f", 1)), None)
+            FLAKY["fail"] = True
+            try:
+                handle.fetch_blob(kf)
+                first = "returned"
+            except BaseException as e:
+                first = type(e).__name__
+            finally:
+                FLAKY["fail"] = False
+            res.evaluations += 1
+            try:
+                present = handle.has_blob(kf)
+                again = handle.fetch_blob(kf)
+            except BaseException as e:
+                present, again = None, "EXC:%s:%s" % (type(e).__name__, str(e)[:80])
+            if first != "ImportError" or present is not True or again != Flaky(("f", 1)):
+                res.violations.append({"what": "a fetch through %s that fails (%s) must leave the blob as it is: afterwards has_blob answers %s and fetch_blob %r" % (
+                    hname, first, present, again), "input": {"value": "an object whose reconstruction fails once", "handle": hname}, "kf": None})
         # a second store object on the same directories, in the same process (set_store called again): same registry, same answers
         st_first = st
         st = LocalFileStore(internal, data)
